@@ -383,6 +383,7 @@ def write_evidence(p, path, t0, violations, unknown, known_lines=(), undecided=N
               {k: b.get(k) for k in ('name', 'bound', 'result', 'why_bounded')}
               for b in getattr(p, 'native_checks', [])],
           'reachability': getattr(p, 'reach', None),
+          'decided_during_execution': len(p.sink.trivial),
           'not_covered': p.not_covered,
           'notes': p.notes + list(undecided_notes) + ([undecided] if undecided else []),
       },
@@ -398,7 +399,7 @@ def pin(pid):
   mod = importlib.import_module(f'pyvc.props.{pid}')
   p = Proof(pid, 'quick', 0)
   mod.build(p)
-  names = sorted({base_name(o.name) for o in p.sink.obligations})
+  names = sorted({base_name(o.name) for o in p.sink.obligations} | {base_name(n) for n in p.sink.trivial})
   write_json(os.path.join(VERIF, 'pinned', f'{pid}.json'),
              {'property': pid, 'obligations': names,
               'functions': [ex.record() for ex in p.functions.values()]})
